@@ -28,7 +28,7 @@ CASE_TIMEOUT = {"quick": 60, "thorough": 180}
 
 
 def budget(tier):
-    return 400 if tier == "quick" else 4000
+    return 800 if tier == "quick" else 8000
 
 
 def gen_case(rng, tier, k):
@@ -146,7 +146,19 @@ def run_case(case):
     # 2. declaration order through the AEON API
     order = names[:]
     rng.shuffle(order)
-    compare("reorder", SuccessionDiagram(reorder_network(BooleanNetwork.from_bnet(txt), order)), ident)
+    reordered = SuccessionDiagram(reorder_network(BooleanNetwork.from_bnet(txt), order))
+    compare("reorder", reordered, ident)
+    # the library's own comparison must see the two presentations as the same diagram
+    if not (base.is_isomorphic(reordered) and reordered.is_subgraph(base) and base.is_subgraph(reordered)):
+        fails.append({"kind": "presentation-changes-result", "sig": {"presentation": "reorder", "what": "is_isomorphic"}, "detail":
+                      f"is_isomorphic/is_subgraph between the base diagram and the same network declared as {order} is False"})
+    if len(names) >= 2:
+        partial = SuccessionDiagram(reorder_network(BooleanNetwork.from_bnet(txt), order))
+        partial.expand_bfs(bfs_level_limit=0)
+        want = len(base) == len(partial) and base.dag.number_of_edges() == partial.dag.number_of_edges()
+        if base.is_isomorphic(partial) != want or not partial.is_subgraph(base):
+            fails.append({"kind": "presentation-changes-result", "sig": {"presentation": "reorder", "what": "is_subgraph"}, "detail":
+                          f"partial diagram of the reordered network vs full base diagram: is_isomorphic={base.is_isomorphic(partial)} expected {want}, is_subgraph={partial.is_subgraph(base)}"})
     # 3. equivalent formulas
     lines = []
     for v in names:
@@ -176,7 +188,7 @@ def run_case(case):
     if case.get("weird"):
         from biobalm.petri_net_translation import sanitize_network_names
         import copy as _copy
-        pats = ["{}{{x}}", "{}[1]", "{}_", "{}[", "{}]", "{}-y", "{}.z"]
+        pats = ["{}{{x}}", "{}[1]", "{}_", "{}[", "{}]", "{}-y", "{}.z", "{}\u03b3", "{}\u00e9"]
         weird = {}
         for k, v in enumerate(names):
             base_nm = v if k % 2 == 0 else names[0]
